@@ -688,6 +688,7 @@ def check(ctx):
     expiry_contract(ctx, prog)
     sentinel_collision_rule(ctx, prog)
     earliest_contract(ctx, prog)
+    clock_rule(ctx, prog, "C08.T10")
     single_poll_rule(ctx, prog)
     sentinel_rule(ctx, prog)
     poll_rules(ctx, prog)
